@@ -3,7 +3,12 @@
 import glob, json, os
 print("| mutation | changed | needs, to manifest | detected by (check: signature) |")
 print("|---|---|---|---|")
-for d in sorted(glob.glob("/verif/seeded/*/meta.json")):
+def order(p):
+    n = os.path.basename(os.path.dirname(p))
+    return (n.split("-m")[0], int(n.split("-m")[1]))
+
+
+for d in sorted(glob.glob("/verif/seeded/*/meta.json"), key=order):
     m = json.load(open(d))
     name = os.path.basename(os.path.dirname(d))
     files = "; ".join(f.split("|")[0].strip().replace("crates/", "") for f in m["files_changed"])
